@@ -14,5 +14,5 @@ Extraction "gpmodel.ml"
   run_changes connect_dots change_assoc mtch_node inst_node eqvb
   augment Augment.find augs_okb wfb
   changed_intervals cleanup run_steps lines_to_merge
-  diff_snapshot the_script decl_report decl_conditions record_changed file_decls file_decls_to elem_regions xedits vpos vend
+  diff_snapshot the_script decl_report decl_conditions one_change_report record_changed file_decls file_decls_to elem_regions xedits vpos vend
   load_patches listed.
